@@ -296,3 +296,13 @@ Lemma utf8_examples :
   utf8 [97; 233; 8364; 128512] = Some [97; 195; 169; 226; 130; 172; 240; 159; 152; 128]
   /\ utf8 [55296] = None.
 Proof. split; vm_compute; reflexivity. Qed.
+
+(* the old defect D14 on its witness: folded A with children B/C -- TOC and render now both stop at A *)
+Lemma folded_parent_example :
+  let d := update_path [of_ascii "A"] (set_folded true)
+             (add_texts false [(of_ascii "A", of_ascii "a"); (of_ascii "A/B", of_ascii "b"); (of_ascii "A/B/C", of_ascii "c")] []) in
+  toc_events d = [(of_ascii "A", O)]
+  /\ map (fun e => (fst e, title (snd e))) (render_events d) = [(1%nat, of_ascii "A")]
+  /\ event_paths d = [[of_ascii "A"]]
+  /\ paths d = [[of_ascii "A"]; [of_ascii "A"; of_ascii "B"]; [of_ascii "A"; of_ascii "B"; of_ascii "C"]].
+Proof. repeat split; vm_compute; reflexivity. Qed.
